@@ -5,6 +5,9 @@ state": the simulator reaches states by seeded add/remove histories over a pool 
 colliding ids and injects each rejection there (duplicate id by the same / another object, unknown id,
 strict lookup, out-of-bounds placement on each axis and side), comparing a full observable snapshot
 before and after."""
+import copy
+import pickle
+
 from ECAgent.Core import Agent, AgentNotFoundError, Component, DuplicateAgentError, Environment, Model
 from ECAgent.Environments import GridWorld, PositionComponent
 
@@ -30,7 +33,7 @@ PROBES = ["dup_same_object", "dup_other_object", "unknown_remove", "unknown_stri
           "oob_y_lo", "oob_y_hi", "oob_z_lo", "oob_z_hi", "oob_far", "reject_on_empty_environment", "remove_from_middle",
           "readd_after_remove", "plain_env", "spatial_env", "model_lifecycle_op", "caller_scrambles_listing", "oob_fractional_in_grid", "environment_without_model",
           "agent_is_an_environment", "nested_population_changed_while_resident", "ops_from_inside_a_timestep", "deprecated_camelcase_spelling", "agent_constructed_for_another_model",
-          "agents_with_equal_position_components_in_a_plain_environment"]
+          "agents_with_equal_position_components_in_a_plain_environment", "history_continued_on_a_copy"]
 TECHNIQUE = "deterministic simulation: every rejection injected at states reached by seeded add/remove histories, full observable snapshot compared before/after, insertion-ordered map reference"
 LEVEL_TEXT = ("Seeded search over add/remove histories with colliding ids; after every operation length, iteration, listing and "
               "lookup must agree with an insertion-ordered reference; each injected rejection must raise the documented class "
@@ -49,8 +52,8 @@ class K1(K0):           # a subclass of K0: components are keyed by their exact 
     pass
 
 
-class K2(Component):
-    pass
+class K2(__import__("props.common", fromlist=["x"]).ChaosMixin, Component):
+    """A component class with special methods of its own (callable, iterable, ordered, falsy, odd repr ...)."""
 
 
 KT = [K0, K1, K2]
@@ -113,6 +116,9 @@ def generate(rng, tier):
         for j in nested:
             for _ in range(rng.randint(0, 3)):
                 ops.insert(rng.randint(0, len(ops)), {"op": "nest", "k": j, "what": rng.choice(["add", "add", "remove"])})
+    if rng.random() < 0.12:
+        for _ in range(rng.randint(1, 2)):      # checkpoint / branch: the history continues on a deep copy (or pickle round trip)
+            ops.insert(rng.randint(0, len(ops)), {"op": "branch", "how": rng.choice(["deepcopy", "deepcopy", "pickle"])})
     for o_ in ops:        # the deprecated camelCase spellings (addAgent / removeAgent) are still public API: some calls use them
         if o_.get("op") in ("add", "remove") and rng.random() < 0.08:
             o_["camel"] = True
@@ -355,6 +361,13 @@ def execute(sc, ctx):
                 ctx.expect_ok("nested-remove", e.remove_agent, next(iter(e.agents)))
             if e.id in residents and objs[residents[e.id]] is e:
                 ctx.probe("nested_population_changed_while_resident")
+        elif kind == "branch":
+            if ctx.in_step or env.model is None:
+                continue
+            blob = (m, env, objs, other_model)
+            m, env, objs, other_model = pickle.loads(pickle.dumps(blob)) if op.get("how") == "pickle" else copy.deepcopy(blob)
+            ctx.fault("restart.continue_on_copy")
+            ctx.probe("history_continued_on_a_copy")
         elif kind == "observe":
             pass
         if len(residents) >= 3:
